@@ -444,6 +444,10 @@ impl World {
         let tcp = litep2p::transport::tcp::config::Config {
             listen_addresses: vec!["/ip4/127.0.0.1/tcp/0".parse().unwrap()],
             nodelay: true,
+            // stated explicitly (they are the current defaults) so that the scenarios' time budgets do not depend on the
+            // library's defaults being what they are today
+            connection_open_timeout: std::time::Duration::from_secs(10),
+            substream_open_timeout: std::time::Duration::from_secs(5),
             ..Default::default()
         };
         let config = builder.with_keypair(keypair).with_executor(exec.clone()).with_tcp(tcp).build();
